@@ -300,6 +300,69 @@ def _long(args):
     return label, hi - lo, bad
 
 
+def cross_connection(ctx):
+    """The reassembly state belongs to ONE connection: (a) a connection lost in the middle of a packet must not
+    leak its partial packet into the next connection; (b) a partial packet on address A must not be completed or
+    disturbed by data arriving on address B."""
+    n = 0
+    pkts = packets_all()
+    data = b''.join(pkts)
+    probe = rc.enc_publish('after/reconnect', b'ok', 0)
+    for k in range(1, len(data)):
+        w = base_world()
+        for ev in (('raw', 0, data[:k]), ('lose', 0, 'done'), ('rebuild', 0), ('connect', 0, True, 0, 4), ('connack', 0, 0, False),
+                   ('raw', 0, probe)):
+            w.apply(ev)
+        n += 1
+        c = w.conn(0)
+        conn_req = w.reqs[c.connect_req]
+        got = [o for o in w.new_obs() if o[0] == 'cb' and o[1] == 'onPublish']
+        if not conn_req.ok or len(got) != 1 or got[0][3][0] != 'after/reconnect' or c.close_req is not None:
+            ctx.violation({'kind': 'framing', 'signature': 'partial-packet-leaks-into-next-connection',
+                           'detail': 'connection lost after %d bytes of the stream; on the next connection CONNACK/PUBLISH were not '
+                                     'processed normally (connect ok=%s, deliveries=%d, closed=%s)' % (k, conn_req.ok, len(got), c.close_req),
+                           'history': [['stream', 'all-types'], ['cuts', [k]]], 'scenario': {'name': 'cross', 'stream': 'reconnect'}})
+            break
+    from ..world import World
+    pa = rc.enc_publish('to/a', b'A' * 20, 1, False, False, 5)
+    pb = rc.enc_publish('to/b', b'B' * 3, 1, False, False, 6)
+    for k in range(1, len(pa)):
+        for j in range(0, len(pb)):
+            w = World(dict(profile='sub', mode='sync', naddr=2))
+            for ev in (('connect', 0, True, 0, 4), ('connack', 0, 0, False), ('connect', 1, True, 0, 3), ('connack', 1, 0, False)):
+                w.apply(ev)
+            mark = len(w.obs)
+            seq = [('raw', 0, pa[:k])]
+            if j:
+                seq += [('raw', 1, pb[:j]), ('raw', 0, pa[k:]), ('raw', 1, pb[j:])]
+            else:
+                seq += [('raw', 1, pb), ('raw', 0, pa[k:])]
+            for ev in seq:
+                w.apply(ev)
+            n += 1
+            acts = [o for o in w.obs[mark:] if o[0] in ('cb', 'w', 'close', 'exc')]
+            flat = []
+            for o in acts:
+                if o[0] == 'w':
+                    flat += [('w', o[1], p['raw']) for p in o[5]]
+                else:
+                    flat.append(o[:4])
+            want_a = [('w', 0, rc.enc_ack('PUBACK', 5)), ('cb', 'onPublish', 0, ('to/a', b'A' * 20, 1, False, False, 5))]
+            want_b = [('w', 1, rc.enc_ack('PUBACK', 6)), ('cb', 'onPublish', 1, ('to/b', b'BBB', 1, False, False, 6))]
+            got_a = [x for x in flat if x[1] == 0 or x[2] == 0]
+            got_b = [x for x in flat if x[1] == 1 or x[2] == 1]
+            if [x for x in flat if (x[0] == 'w' and x[1] == 0) or (x[0] == 'cb' and x[2] == 0)] != want_a or \
+               [x for x in flat if (x[0] == 'w' and x[1] == 1) or (x[0] == 'cb' and x[2] == 1)] != want_b or \
+               any(x[0] in ('close', 'exc') for x in flat):
+                ctx.violation({'kind': 'framing', 'signature': 'connections-share-reassembly-state',
+                               'detail': 'A got %d of %d bytes, then B got data, then A the rest: actions %r' % (k, len(pa), flat[:6]),
+                               'history': [['stream', 'two-addresses'], ['cuts', [k, j]]], 'scenario': {'name': 'cross', 'stream': 'two-addresses'}})
+                ctx.executions += n
+                return n
+    ctx.executions += n
+    return n
+
+
 def run(ctx):
     ctx.rule = ('all 2^(n-1) compositions of streams holding every broker packet type, by dynamic programming over cut '
                 'positions on the real dataReceived (S_j = distinct (state, actions) after bytes[0:j) in any chunking); '
@@ -371,6 +434,7 @@ def run(ctx):
                                'history': [['stream', label], ['cuts', cuts[:40]]], 'scenario': {'name': 'long', 'stream': label}})
     ctx.executions += n_brute + n_long
     ctx.add_enum(n_brute + n_long, n_brute + n_long, [{'stream': 'acks', 'cuts': [1, 2, 3, 14]}])
+    ctx.extra['cross_connection_cases'] = cross_connection(ctx)
     ctx.extra['brute_force_compositions'] = n_brute
     ctx.extra['long_stream_cut_sets'] = n_long
     ctx.assumptions = ['merging in the DP relies on the key being the full generic state dump + the action list',
@@ -380,6 +444,19 @@ def run(ctx):
 def replay(rec):
     sc = rec['scenario']
     name = sc['stream']
+    if sc['name'] == 'cross':
+        class _C2(object):
+            executions = 0
+            v = []
+            def violation(self, x):
+                self.v.append(x)
+        c2 = _C2()
+        cross_connection(c2)
+        for x in c2.v:
+            print(x['signature'], x['detail'])
+        if c2.v:
+            print('VIOLATION property=%s replay=%s' % (PROP, rec['_path']))
+        return 1 if c2.v else 0
     if sc['name'] == 'ref':
         class _C(object):
             v = []
